@@ -63,6 +63,7 @@ def run(prog, chk):
     chk.rule(strops.check_for, prog, chk, "C11")
     chk.rule(strops.blank_only_separators, prog, chk)  # a pair / list cut at blanks is cut at tabs and newlines too
     from props import C04 as _C04
+    chk.rule(_C04.formatter_integer_shortcut_is_exact, prog, chk)
     chk.rule(_C04.formatter_trims_one_character_class_at_a_time, prog, chk)  # what is written is the computed number: its integer digits survive the formatter
     chk.rule(strops.check_number_formatting, prog, chk)  # results are exact up to the 3-decimal *output* rounding  # A14.str-ops: how this property's strings are cut up is a reviewed, frozen inventory
     from props import C03 as _C03
